@@ -4,7 +4,7 @@ import numpy as np
 from .. import scenes, obs, oracles
 
 ID, NUM, LEVEL = 'C19', 19, 'exploration'
-RULE = ('Evaluation = one (array, scaling mode, user kwargs) triple pushed through the real scaler.apply_scaling, '
+RULE = ('Evaluation = one (array, scaling mode, user kwargs) triple pushed through the real scaler.apply_scaling (and through minmax_scale / shift_and_scale / step_scale called directly with their data-derived defaults), '
         'with the deterministic do/undo kwargs derived by the real plots.tools.get_scaling_kwargs. Oracle: for '
         'finite x<y, f(x)<=f(y); undo(do(x)) == x within a conditioning-aware absolute bound 64*eps*(max|x| + '
         'max|offset| + (max|y|+max|continuity term|)*max scale); minmax output within [0,1] and output span == '
@@ -17,7 +17,7 @@ RULE = ('Evaluation = one (array, scaling mode, user kwargs) triple pushed throu
         'distinct finite values; distinct = hash of (array, mode, kwargs).')
 ASSUMPTIONS = ['min_range/value span of at least 1e-6 (stated domain)', 'IEEE double arithmetic']
 REQUIRED = ['mode:shift-and-scale', 'mode:minmax-scale', 'mode:step-scale', 'nans_interspersed', 'value_on_step_edge',
-            'min_range_binding', 'all_nan', 'single_value', 'constant', 'in_situ', 'max_exactly_0', 'window_edge_exactly_0'] + ['steps%d' % k for k in range(5)]
+            'min_range_binding', 'all_nan', 'single_value', 'constant', 'in_situ', 'max_exactly_0', 'window_edge_exactly_0', 'direct_function_calls'] + ['steps%d' % k for k in range(5)]
 SIZES = {'quick': 24000, 'thorough': 600000}
 EPS = np.finfo(float).eps
 
@@ -136,6 +136,25 @@ def judge(x, m, kw, viol, tags):
         k = int(np.where(y2 != yf)[0][0])
         oracles.V(viol, 'C19', 'NaN entries affect the scaling of the other values', with_nans=float(yf[k]),
                   without=float(y2[k]), **wit)
+    # the scaling functions called directly with their data-derived defaults (no explicit shift / min / max)
+    try:
+        if m == 'minmax-scale' and fin.max() > fin.min():
+            yd = np.asarray(scaler.minmax_scale(x.copy()), dtype=float)
+            exp_d = (fin - fin.min()) / (fin.max() - fin.min())
+            if (np.isnan(yd) != ~fin_mask).any() or not np.array_equal(yd[fin_mask], exp_d):
+                oracles.V(viol, 'C19', 'minmax_scale(x) with default bounds: NaNs leak into / change the scaling', **wit)
+            tags.add('direct_function_calls')
+        elif m == 'shift-and-scale' and 'shift' not in kw:
+            yd = np.asarray(scaler.shift_and_scale(x.copy(), scale=kw['scale']), dtype=float)
+            if (np.isnan(yd) != ~fin_mask).any() or not np.array_equal(yd[fin_mask], yf):
+                oracles.V(viol, 'C19', 'shift_and_scale(x) with the default shift differs from apply_scaling / loses values to NaN', **wit)
+            tags.add('direct_function_calls')
+        elif m == 'step-scale':
+            yd = np.asarray(scaler.step_scale(x.copy(), list(kw['steps']), list(kw['scales'])), dtype=float)
+            if (np.isnan(yd) != ~fin_mask).any() or not np.array_equal(yd[fin_mask], yf):
+                oracles.V(viol, 'C19', 'step_scale(x) called directly differs from apply_scaling', **wit)
+    except Exception as e:      # noqa
+        oracles.V(viol, 'C19', 'direct call of a scaling function raises', exc=type(e).__name__, msg=str(e)[:120], **wit)
     # order
     idx = np.argsort(fin, kind='stable')
     d = np.diff(yf[idx])
